@@ -708,8 +708,8 @@ theorem mha_bias_rejects_full_rank_addend :
 theorem mha_bias_addend_prefix_refuted (i : MhabIn) (y1 y2 : Option Shape) :
     mhab { i with fix12 := false, biasFirst := false, qbias := y1 }
       = mhab { i with fix12 := false, biasFirst := false, qbias := y2 } := by
-  obtain ⟨qm, km, vm, qbias, qmul, dt, qb, kb, vb, biasFirst, heads, pre, preConst, ascale, mask, fix12⟩ := i
-  cases pre <;> cases preConst <;> cases qb <;> simp [mhab]
+  obtain ⟨qm, km, vm, qbias, qmul, dt, qb, kb, vb, biasFirst, heads, pre, preConst, ascale, mask, fix12, bias0, fix16⟩ := i
+  cases pre <;> cases preConst <;> cases qb <;> cases bias0 <;> cases fix16 <;> simp [mhab]
 
 
 /-! ## Mixed ranks and pipeline order -/
@@ -1219,19 +1219,23 @@ theorem core_stage_order_facts :
          ("else:" ++ mhaGuard, "mha_bias"), ("else:" ++ mhaGuard, "attention")] := by decide +kernel
 
 /-- **The modelled pipeline is the source's stage list.**  Interpreting the extracted stage keys one after the other on
-the query-op stack (`runQStage`: `mha_scale` peels a `Mul`, `mha_bias` an `Add`, all other stages leave the query path
-alone) is `pipeStages` — for every stack and both values of `otherBias`. -/
+the query-op stack of a freshly fused MHA node (`runQStage` with the current rules: `mha_scale` peels a `Mul` unless the
+node has a bias input, `mha_bias` peels an `Add` and sets that input, all other stages leave the query path alone) is
+`pipeStages` — for every stack and both values of `otherBias`; the node ends up with a bias input iff `mha_bias` fired. -/
 theorem pipe_stages_follow_core_table (ops : List QOp) (otherBias : Bool) :
-    pipeStagesOf (stageKeys OV.Gen.C19Core.fuseXformersSteps) ops otherBias = pipeStages ops otherBias := by
+    pipeStagesOf (stageKeys OV.Gen.C19Core.fuseXformersSteps) ops otherBias = qstateOf (pipeStages ops otherBias) otherBias := by
   rw [core_stage_keys]
-  simp [pipeStagesOf, runQStage, pipeStages]
+  cases otherBias <;> simp [pipeStagesOf, runQStage, pipeStages, qstateOf] <;> split <;> simp_all
 
-/-- non-vacuity of the previous statement: it distinguishes orders — `mha_bias` before `mha_scale`, or a second
-`mha_scale` after `mha_bias` (seeded change C19-6), give a different result on `q·s + b`. -/
+/-- non-vacuity of the previous statement: it distinguishes orders — `mha_bias` before `mha_scale` gives a different
+result on `(q + b)·s`.  A second `mha_scale` AFTER `mha_bias` (seeded change C19-6) differed under the rule before
+a202620 (`fix16 = false`); with the current rule the second call refuses the biased node and the result is the same. -/
 theorem pipe_stage_order_matters :
-    pipeStagesOf ["mha_bias", "mha_scale"] [.mul, .add] false ≠ pipeStagesOf ["mha_scale", "mha_bias"] [.mul, .add] false
-    ∧ pipeStagesOf ["mha_scale", "mha_bias", "mha_scale"] [.mul, .add] false
-        ≠ pipeStagesOf ["mha_scale", "mha_bias"] [.mul, .add] false := by decide
+    pipeStagesOf ["mha_bias", "mha_scale"] [.add, .mul] false ≠ pipeStagesOf ["mha_scale", "mha_bias"] [.add, .mul] false
+    ∧ pipeRoundOf false ["mha_scale", "mha_bias", "mha_scale"] false ([.mul, .add], false, false, false)
+        ≠ pipeRoundOf false ["mha_scale", "mha_bias"] false ([.mul, .add], false, false, false)
+    ∧ pipeRoundOf true ["mha_scale", "mha_bias", "mha_scale"] false ([.mul, .add], false, false, false)
+        = pipeRoundOf true ["mha_scale", "mha_bias"] false ([.mul, .add], false, false, false) := by decide
 
 section CoreCompose
 variable {K : Type} [Field K]
@@ -1240,9 +1244,9 @@ variable {K : Type} [Field K]
 `fuse_xformers` on ANY stack of `Mul`/`Add` over the query preserves every attention score. -/
 theorem pipe_source_order_sound {n : Nat} (ops : List QOp) (otherBias : Bool) (q b k : Fin n → K) (s c : K) :
     let r := pipeStagesOf (stageKeys OV.Gen.C19Core.fuseXformersSteps) ops otherBias
-    mhaScore (applyOps s b r.1 q) (if r.2.2 then b else fun _ => 0) k (if r.2.1 then c * s else c)
+    mhaScore (applyOps s b r.1 q) (if r.2.2.1 then b else fun _ => 0) k (if r.2.1 then c * s else c)
       = mhaScore (applyOps s b ops q) (fun _ => 0) k c := by
-  simp only [pipe_stages_follow_core_table]
+  simp only [pipe_stages_follow_core_table, qstateOf]
   exact pipe_stage_order_sound ops otherBias q b k s c
 
 end CoreCompose
@@ -1258,59 +1262,77 @@ theorem core_unguarded_keys :
 
 /-- **Second round, from the source.**  A further `fuse_xformers` on the block the first one left — the extracted stage
 list minus the stages the guard skips — acts on the query path as `pipeSecondRound`: ONLY `mha_scale` (it sits before
-the guard), for every state. -/
-theorem pipe_second_round_follows_core_table (otherBias : Bool) (st : List QOp × Bool × Bool) :
-    pipeRoundOf (unguardedKeys OV.Gen.C19Core.fuseXformersSteps) otherBias st = pipeSecondRound st := by
+the guard), for every state, for the rule before and after a202620. -/
+theorem pipe_second_round_follows_core_table (fix16 otherBias : Bool) (st : QState) :
+    pipeRoundOf fix16 (unguardedKeys OV.Gen.C19Core.fuseXformersSteps) otherBias st = pipeSecondRound fix16 st := by
   rw [core_unguarded_keys]
-  simp [pipeRoundOf, runQStage, pipeSecondRound]
+  cases fix16 <;> simp [pipeRoundOf, runQStage, pipeSecondRound]
 
 section Second
 variable {K : Type} [Field K]
 
-/-- **`second_application_sound` — _partial_.**  Full statement (refuted below, finding C19-F16): "for every stack
-`ops`, the block left by a second `fuse_xformers` computes the original attention scores".  Proved here under the
-hypothesis `hnb`: the FIRST round packed no query bias into MHA.  Then a second round (which may fold one more `Mul`
-into `scale`) is sound for every stack, every head size, all values.  The hypothesis is forced: with a packed query
-bias, `FuseMHAScale` — which never inspects MHA's `bias` input — scales the bias as well. -/
-theorem second_application_sound_partial {n : Nat} (ops : List QOp) (otherBias : Bool) (q b k : Fin n → K) (s c : K)
-    (hnb : (pipeStages ops otherBias).2.2 = false) :
-    mhaScore (applyOps s b (pipeSecondRound (pipeStages ops otherBias)).1 q) (fun _ => 0) k
-        ((if (pipeStages ops otherBias).2.1 then c * s else c) * (if (peelMul (pipeStages ops otherBias).1).2 then s else 1))
+/-- **`second_application_sound`** — FULL since /repo commit a202620 (was `_partial` with the hypothesis "round 1 packed
+no query bias"; that hypothesis is now discharged by the rule itself: a node with a bias input is refused).  For EVERY
+stack of `Mul`/`Add` on the query, both values of `otherBias`, every head size and all values: the block left by a
+SECOND `fuse_xformers` — the ops still in front of MHA, the query bias packed in round 1, the scale `c·s^(folded)` —
+computes the original attention scores. -/
+theorem second_application_sound {n : Nat} (ops : List QOp) (otherBias : Bool) (q b k : Fin n → K) (s c : K) :
+    let st1 := qstateOf (pipeStages ops otherBias) otherBias
+    mhaScore (applyOps s b (pipeSecondRound true st1).1 q) (if (pipeSecondRound true st1).2.2.1 then b else fun _ => 0) k
+        ((if (pipeStages ops otherBias).2.1 then c * s else c) * (if pipeSecondPeels true st1 then s else 1))
       = mhaScore (applyOps s b ops q) (fun _ => 0) k c := by
+  intro st1
   have h1 := pipe_stage_order_sound ops otherBias q b k s c
-  rw [hnb] at h1
-  simp only [Bool.false_eq_true, if_false] at h1
-  rw [← h1]
-  simp only [pipeSecondRound, peelMul]
-  by_cases hm : (pipeStages ops otherBias).1.getLast? = some QOp.mul
-  · have hsplit : (pipeStages ops otherBias).1 = (pipeStages ops otherBias).1.dropLast ++ [QOp.mul] :=
-      (List.dropLast_append_getLast? _ (by simp [hm])).symm
-    simp only [hm, if_true]
-    conv_rhs => rw [hsplit, applyOps_append]
-    simp only [applyOps, mhaScore, add_zero, Finset.sum_mul]
-    exact Finset.sum_congr rfl (fun d _ => by ring)
-  · simp only [hm, if_false, Bool.false_eq_true, mul_one]
+  by_cases hp : ((pipeStages ops otherBias).2.2 || otherBias) = true
+  · have e1 : pipeSecondRound true st1 = st1 := by simp [pipeSecondRound, st1, qstateOf, hp]
+    have e2 : pipeSecondPeels true st1 = false := by simp [pipeSecondPeels, st1, qstateOf, hp]
+    rw [e1, e2]
+    simpa [st1, qstateOf] using h1
+  · have hob : otherBias = false := by cases otherBias <;> simp_all
+    subst hob
+    have hnb : (pipeStages ops false).2.2 = false := by
+      cases hq : (pipeStages ops false).2.2 <;> simp_all
+    rw [hnb] at h1
+    simp only [Bool.false_eq_true, if_false] at h1
+    rw [← h1]
+    by_cases hm : (pipeStages ops false).1.getLast? = some QOp.mul
+    · have hsplit : (pipeStages ops false).1 = (pipeStages ops false).1.dropLast ++ [QOp.mul] :=
+        (List.dropLast_append_getLast? _ (by simp [hm])).symm
+      simp only [pipeSecondRound, pipeSecondPeels, st1, qstateOf, hnb, peelMul, hm, Bool.or_false, Bool.and_false,
+        Bool.false_eq_true, if_false, if_true, Bool.not_false, Bool.true_and, Bool.or_self]
+      conv_rhs => rw [hsplit, applyOps_append]
+      simp only [applyOps, mhaScore, add_zero, Finset.sum_mul]
+      exact Finset.sum_congr rfl (fun d _ => by ring)
+    · simp only [pipeSecondRound, pipeSecondPeels, st1, qstateOf, hnb, peelMul, hm, Bool.or_false, Bool.and_false,
+        Bool.false_eq_true, if_false, Bool.not_false, Bool.true_and, Bool.or_self, mul_one, Bool.and_self]
 
 end Second
 
-/-- non-vacuity of `second_application_sound_partial`: `((q + b)·s)·s` — no bias is packed in round 1 (the `Add` is
-under the `Mul`s), round 1 folds one `Mul`, round 2 the other -/
-example : (pipeStages [.add, .mul, .mul] false).2.2 = false
-    ∧ (peelMul (pipeStages [.add, .mul, .mul] false).1).2 = true := by decide
+/-- non-vacuity of `second_application_sound`, both branches: `((q + b)·s)·s` — no bias input after round 1, round 2 folds
+the second `Mul`; `q·s + b` — the node has a bias input after round 1, round 2 leaves the `Mul` alone (count 0/0/0/0/0). -/
+example : pipeSecondPeels true (qstateOf (pipeStages [.add, .mul, .mul] false) false) = true
+    ∧ pipeSecondPeels true (qstateOf (pipeStages [.mul, .add] false) false) = false
+    ∧ pipeSecondRound true (qstateOf (pipeStages [.mul, .add] false) false) = ([.mul], false, true, true) := by decide
 
-/-- **Negation of the full statement (finding C19-F16).**  `q·s + b`: round 1 packs the bias and leaves the `Mul`
-(correct), round 2 folds that `Mul` into `scale` although the node now carries the bias: the score becomes
-`(q + b)·k·(c·s)` instead of `(q·s + b)·k·c` — different already for n = 1, q = b = k = c = 1, s = 1/2.
-Replayed on the real code: `fuse_mha_scale` on `MultiHeadAttention(Mul(q, 0.5), k, v, bias)`, and
-`optimize_for_ort` applied twice to a `pipe` block with `q_proj = scale_bias`. -/
-theorem second_application_scale_bias_refuted :
+/-- **The decision BEFORE a202620 (fixed finding C19-F16), refuted.**  `q·s + b`: round 1 packs the bias and leaves the
+`Mul` (correct); the old `mha_scale` (`fix16 = false`) folded that `Mul` into `scale` in round 2 although the node
+carried the bias: the score became `(q + b)·k·(c·s)` instead of `(q·s + b)·k·c` — different already for n = 1,
+q = b = k = c = 1, s = 1/2.  The witness is a must-pass regression case of `harness/c19.py`. -/
+theorem second_application_scale_bias_prefix_refuted :
     pipeStages [.mul, .add] false = ([.mul], false, true)
-    ∧ pipeSecondRound (pipeStages [.mul, .add] false) = ([], true, true)
+    ∧ pipeSecondRound false (qstateOf (pipeStages [.mul, .add] false) false) = ([], true, true, true)
     ∧ mhaScore (applyOps (1/2 : ℚ) (fun _ : Fin 1 => 1) [] (fun _ => 1)) (fun _ => 1) (fun _ => 1) (1 * (1/2))
         ≠ mhaScore (applyOps (1/2 : ℚ) (fun _ : Fin 1 => 1) [.mul, .add] (fun _ => 1)) (fun _ => 0) (fun _ => 1) 1 := by
   refine ⟨by decide, by decide, ?_⟩
   simp [mhaScore, applyOps]
   norm_num
+
+/-- **`mha_scale` refuses a node that has a bias input** (current rule), for every instance; `mha_bias` (whose pattern
+requires that input to be absent) does not fire either: the node is left unchanged. -/
+theorem mha_scale_refuses_biased_node (i : MhabIn) (hb : i.bias0 = true) (hf : i.fix16 = true) : mhab i = "count=0/0" := by
+  unfold mhab
+  simp [hb, hf]
+  decide
 
 /-! ## `math.isclose` decisions (pattern float literals; SDPA's default-scale test)
 
